@@ -403,10 +403,16 @@ LEVEL_TEXT = ("Lean 4 theorems about an executable model of the hourly clock nor
               "assigned row by row), values before a transition keep their slot, a skipped hour stays absent, a repeated hour gets two "
               "values, nothing crosses a day boundary (except the one average across midnight when 23:00 repeats); daily predict returns "
               "exactly the frame's timestamps in order and a prediction exactly on rows with finite temperature (and usage). The DST model "
-              "is tied to the real _get_dst_indices/_transform_dst on frames of real data objects over IANA zones x transitions.")
+              "is tied to the real _get_dst_indices/_transform_dst on frames of real data objects over IANA zones x transitions. "
+              "The algorithm the source actually runs (flat indices, sorted operations, fence-post slices, an iterator of interpolated values) is "
+              "transcribed literally (EEM.Model.DstSrc) and PROVED equal to the per-day model for every frame of whole days "
+              "(C06_src_transform_is_per_day; exclusions: a repeated 23:00 on the last day, where the source raises, and a repeated 23:00 directly "
+              "followed by a skipped 00:00, shown to be a real exclusion); the transcription is run against the real function on arbitrary index lists.")
 LEVEL_NOTE = ("Trusted: Lean kernel + standard axioms; hand models validated by T2 only; the tz database (pytz/zoneinfo); 'hourly "
               "predictions are finite' depends on ElasticNet output and is observed by the oracle only; positional assignment of the "
               "prediction array onto the frame (pandas) is what turns the length theorem into one-row-per-timestamp.")
-TECHNIQUE = "Lean 4 proof (list lemmas over an executable model, any number of days/transitions) + zone x transition differential correspondence"
+TECHNIQUE = ("Lean 4 proof (list lemmas over an executable per-day model, any number of days/transitions; refinement proof that the literal "
+             "transcription of _transform_dst - sorted flat operations, fence-post slices - equals the per-day model) + zone x transition and "
+             "function-level differential correspondence")
 ASSUMPTIONS = ["every row's clock hour is a whole hour of the local day (30-minute zones produce 24-row days and no correction)",
                "daily: index labels unique and time-sorted; routing uniqueness is C13's theorem"]
